@@ -139,6 +139,7 @@ pub fn run(ctx: &Ctx, rep: &mut Report) {
             rep.class(format!("pairwise-eq|{}", name));
         }
     }
+    super::c04::corner_sampler(ctx, rep, PID, 12, &mut r, 20_000, 400_000);
     rep.require("codes_checked");
     rep.extra.insert("exhaustive_codes".into(), J::Bool(true));
     rep.sample(3, || {
